@@ -161,7 +161,9 @@ func (e *Eval) evalWhileStmt(w *ast.WhileStmt, env *Env) (Obj, error) {
 func (e *Eval) evalForStmt(f *ast.ForStmt, env *Env) (Obj, error) {
 	scope := NewEnv(env)
 	if f.Init != nil {
-		e.evalStmt(f.Init, scope)
+		if _, err := e.evalStmt(f.Init, scope); err != nil {
+			return nil, err
+		}
 	}
 
 	for {
@@ -193,7 +195,9 @@ func (e *Eval) evalForStmt(f *ast.ForStmt, env *Env) (Obj, error) {
 		}
 
 		if f.Post != nil {
-			e.evalStmt(f.Post, scope)
+			if _, err := e.evalStmt(f.Post, scope); err != nil {
+				return nil, err
+			}
 		}
 	}
 	return &null{}, nil
